@@ -9,3 +9,6 @@ print('beffdrv:', beffdrv_build('release'))
 from checks import c13
 c13.build_runtime()
 print('tsx + stripped/instrumented runtime built')
+from checks import c14
+print('mir:', mir_dump('beff-wasm'))
+print('wasmdrv:', c14.wasmdrv_build())
